@@ -53,6 +53,10 @@ def check(col: Collector, tier: str):
     from sa.props.c03 import check_count_guard
     col.floor("C09.R9", 2)
     check_count_guard(col, "C09.R9", repo)
+    from sa.props._tr import import_obligations
+    import_obligations(col, "C09.R11", "c15", lambda o: o.detail in ("every-copy-merges-its-dependencies", "unknown-dependency-raises-before-emission",
+                                                                      "same-name-different-script-raises", "no-progress-raises-ValueError", "collects-every-job-script"),
+                       "a dependency that is silently dropped is malformed metadata accepted")
     # the refusals must not depend on history: this query's plug-in table is a copy, discovered children first
     from sa.props._tr import check_finder
     col.floor("C09.R10", 4)
